@@ -1,5 +1,6 @@
-(* C08 -- OCPP-J framing round-trips and parsing is total (value level: the array json.loads
-   produced / json.dumps is given; the text level is CPython's json module, see DESIGN.md). *)
+(* C08 -- OCPP-J framing round-trips and parsing is total.  First the value level (the array json.loads
+   produced / json.dumps is given), then the text level (json.loads and json.dumps themselves, modelled
+   in JsonParse.v / JsonText.v). *)
 From Coq Require Import List String Bool ZArith.
 From OV.Model Require Import Json JsonText Schema Frame FrameProofs.
 Import ListNotations.
@@ -52,3 +53,44 @@ Theorem C08_text_shape :
   end.
 Proof. exact pack_text. Qed.
 Print Assumptions C08_text_shape.
+
+(* ---------------------------------------------------------------------------------------------
+   Text level.  JsonParse.loads models json.loads character by character (tied to CPython's json by
+   the `text` correspondence); JsonText.print_compact models json.dumps with compact separators. *)
+From OV.Model Require Import Digits JsonParse JsonParseProofs Utf8Proofs StringRoundTrip JsonRoundTrip FrameText FrameTextProofs.
+
+(* parsing is total on texts: a value, a ValueError or a RecursionError -- for EVERY string and every
+   recursion budget (in particular the model's fuel is never exhausted) *)
+Theorem C08_loads_total :
+  forall limit s, (exists v, loads limit s = LValue v) \/ loads limit s = LError \/ loads limit s = LRecursion.
+Proof. exact loads_trichotomy. Qed.
+Print Assumptions C08_loads_total.
+
+(* unpack on the text: FormatViolation exactly when the text is not decodable (ValueError or
+   RecursionError), otherwise the value-level classification of C08_total_classified *)
+Theorem C08_text_classified :
+  forall limit s,
+    (unpack_text limit s = UErr CFormatViolation <-> (loads limit s = LError \/ loads limit s = LRecursion)) /\
+    (forall j, loads limit s = LValue j -> unpack_text limit s = unpack_v j).
+Proof. exact unpack_text_classified. Qed.
+Print Assumptions C08_text_classified.
+
+(* json.loads(json.dumps(v, separators=(",", ":"))) == v for every representable value: ints within the
+   digit limit, floats given by their repr (float_ok), strs without a high surrogate directly followed by
+   a low one (WfStr), distinct keys, nesting within the recursion budget *)
+Theorem C08_json_roundtrip :
+  forall limit v, wf v -> depth v <= limit -> loads limit (print_compact v) = LValue v.
+Proof. exact loads_print. Qed.
+Print Assumptions C08_json_roundtrip.
+
+(* serialise a message, parse the text back: the same message *)
+Theorem C08_text_roundtrip :
+  forall limit m, msg_wf m -> msg_depth_ok limit m ->
+    exists m', unpack_text limit (pack_text m) = UMsg m' /\ same_message m m'.
+Proof. exact unpack_text_pack_text. Qed.
+Print Assumptions C08_text_roundtrip.
+
+(* the hypotheses are satisfiable: a CALL with a float, a negative int, escapes, a non-BMP character *)
+Example C08_text_roundtrip_applies :
+  msg_wf sample_call /\ msg_depth_ok 1497 sample_call.
+Proof. exact sample_wf. Qed.
